@@ -468,4 +468,28 @@ theorem items_toF {st : AttrState} (h : Inv st) : (toF st).items = st.view := by
   rw [fset_eq _ _ hd1, styleStr_fmt]
   rfl
 
+/-! ### ASCII input is in the formatter's common domain -/
+
+def Ascii (s : Str) : Prop := ∀ c ∈ s, c.toNat < 128
+
+instance (s : Str) : Decidable (Ascii s) := by unfold Ascii; infer_instance
+
+theorem noUniWs_of_ascii {s : Str} (h : Ascii s) : NoUniWs s := by
+  intro c hc
+  have hlt := h c hc
+  unfold Fmt.pyWs
+  have e1 : decide (c.toNat = 0x85) = false := decide_eq_false (by omega)
+  have e2 : decide (c.toNat = 0xa0) = false := decide_eq_false (by omega)
+  have e3 : decide (c.toNat = 0x1680) = false := decide_eq_false (by omega)
+  have e4 : decide (0x2000 ≤ c.toNat) = false := decide_eq_false (by omega)
+  have e5 : decide (c.toNat = 0x2028) = false := decide_eq_false (by omega)
+  have e6 : decide (c.toNat = 0x2029) = false := decide_eq_false (by omega)
+  have e7 : decide (c.toNat = 0x202f) = false := decide_eq_false (by omega)
+  have e8 : decide (c.toNat = 0x205f) = false := decide_eq_false (by omega)
+  have e9 : decide (c.toNat = 0x3000) = false := decide_eq_false (by omega)
+  simp only [e1, e2, e3, e4, e5, e6, e7, e8, e9, Bool.or_false, Bool.false_and]
+
+theorem fmtDomain_of_ascii {l : List Attr} (h : ∀ p ∈ l, Ascii (p.2.getD [])) : FmtDomain l :=
+  fun p hp _ => noUniWs_of_ascii (h p hp)
+
 end AHP.AttrStores
